@@ -98,14 +98,20 @@ class Report:
         finally:
             # a finding about a function that leans on machinery the analysis does not see through (new helpers, classes, tables of
             # callables that the loader could not fold back) is not a verdict: the rule saw only part of what the function does
-            if prog is not None and any(not o.holds for o in self.obligations[start:]):
+            def listed(o):
+                # a recorded known finding stays what it is
+                if not hasattr(self, '_open_known'):
+                    self._open_known = [k for k in load_known() if k.get('status') == 'open']
+                return any(k.get('property') == self.prop and k['rule'] == o.rule and k.get('anchor') == o.anchor and norm_construct(k['construct']) == o.construct for k in self._open_known)
+            if prog is not None and any(not o.holds and not listed(o) for o in self.obligations[start:]):
                 unseen = {}
-                for f in prog.accessed:
+                anchored = [prog.funcs[o.anchor] for o in self.obligations[start:] if not o.holds and o.anchor in getattr(prog, 'funcs', {})]
+                for f in list(prog.accessed) + anchored:
                     for nm in prog.unseen_machinery(f):
                         unseen.setdefault(f.qualname, []).append(nm)
                 if unseen:
-                    bad = [o for o in self.obligations[start:] if not o.holds]
-                    self.obligations[start:] = [o for o in self.obligations[start:] if o.holds]
+                    bad = [o for o in self.obligations[start:] if not o.holds and not listed(o)]
+                    self.obligations[start:] = [o for o in self.obligations[start:] if o.holds or listed(o)]
                     what = '; '.join('%s uses %s' % (q, ', '.join(sorted(set(v)))) for q, v in sorted(unseen.items()))
                     self.errors.append('%s: not analysed: %s -- new since the tree was read and not folded back by the loader; %d finding(s) of this rule (%s) are therefore not verdicts'
                                        % (fn.__name__, what, len(bad), ', '.join(sorted({o.rule for o in bad}))))
